@@ -82,6 +82,14 @@ func NewTranslator(ctx context.Context, kindMapper pgsql.KindMapper, parameters 
 	}
 }
 
+func parameterAlias(symbol pgsql.Identifier) pgsql.Identifier {
+	if symbol == "" {
+		return symbol
+	}
+
+	return "$" + symbol
+}
+
 func (s *Translator) SetOptimizationPlan(plan optimize.Plan) {
 	s.patternTargets = optimize.IndexPatternTargets(plan.Query)
 	s.patternPredicateTargets = optimize.IndexPatternPredicateTargets(plan.Query)
@@ -204,8 +212,11 @@ func (s *Translator) Enter(expression cypher.SyntaxNode) {
 
 	case *cypher.Parameter:
 		var (
+			// Parameters and variables are different namespaces in Cypher: $p and a node named p may appear in the
+			// same query. Alias parameters under their sigil so that a variable of the same name is never mistaken
+			// for an already bound parameter.
 			cypherIdentifier = pgsql.Identifier(typedExpression.Symbol)
-			binding, bound   = s.scope.AliasedLookup(cypherIdentifier)
+			binding, bound   = s.scope.AliasedLookup(parameterAlias(cypherIdentifier))
 		)
 
 		if !bound {
@@ -214,7 +225,7 @@ func (s *Translator) Enter(expression cypher.SyntaxNode) {
 			} else {
 				// Alias the old parameter identifier to the synthetic one
 				if cypherIdentifier != "" {
-					s.scope.Alias(cypherIdentifier, parameterBinding)
+					s.scope.Alias(parameterAlias(cypherIdentifier), parameterBinding)
 				}
 
 				parameterValue := s.resolveParameterValue(typedExpression)
